@@ -257,10 +257,23 @@ func entryTypeOfOrderedMap(t reflect.Type) reflect.Type {
 	return m.Type.Out(0).Elem().Elem() // []*Entry -> Entry
 }
 
+// leafDefaults: the default of a leaf is its own default statement or, without one, the default of
+// its type (a typedef's default; RFC 7950 7.6.1), unless the leaf is mandatory. (goyang's
+// Entry.DefaultValues needs the parsed statement, which the embedded schema does not carry.)
+func leafDefaults(e *yang.Entry) []string {
+	if len(e.Default) > 0 {
+		return e.Default
+	}
+	if e.Type != nil && e.Type.HasDefault && e.Mandatory != yang.TSTrue {
+		return []string{e.Type.Default}
+	}
+	return nil
+}
+
 func (c *schemaCtx) nodeTerm(t reflect.Type, e *yang.Entry) string {
 	switch {
 	case e.IsLeaf():
-		return "(SLeaf " + c.ytypeTerm(e, e.Type) + " " + coqStrList(e.Default) + ")"
+		return "(SLeaf " + c.ytypeTerm(e, e.Type) + " " + coqStrList(leafDefaults(e)) + ")"
 	case e.IsLeafList():
 		mn, mx := minMax(e)
 		return fmt.Sprintf("(SLeafList %s %d %d)", c.ytypeTerm(e, e.Type), mn, mx)
